@@ -72,11 +72,12 @@ Theorem C17_dict_all_valid : forall VK VV tg, didem VK VV -> forall raw s ops,
 Proof. intros VK VV tg Hi raw s ops E Hw. apply drun_valid; auto. eapply dinit_valid; eauto. Qed.
 Print Assumptions C17_dict_all_valid.
 
-(* ---- typed: copy and + return a typed list of valid items, += returns the list itself ---- *)
+(* ---- typed: copy, + and the constructor return a typed container of valid items, += / |= return the
+   container itself ---- *)
 Theorem C17_list_typed_results : forall V tg, idem V -> forall s op s' r,
   Forall (valid V) s -> op_wf V op -> proxy_step V tg s op = (s', Ok r) ->
   match op with
-  | LCopy | LAdd _ => exists l, r = PList tg l /\ Forall (valid V) l
+  | LCopy | LAdd _ | LNew _ => exists l, r = PList tg l /\ Forall (valid V) l
   | LIAdd _ => r = self_marker /\ Forall (valid V) s'
   | _ => True
   end.
@@ -86,7 +87,7 @@ Print Assumptions C17_list_typed_results.
 Theorem C17_dict_typed_results : forall VK VV tg, didem VK VV -> forall s op s' r,
   Forall (dvalid VK VV) s -> dop_wf VK VV op -> proxy_dstep VK VV tg s op = (s', Ok r) ->
   match op with
-  | DCopy => exists l, r = PDict tg l /\ Forall (dvalid VK VV) l
+  | DCopy | DNew _ => exists l, r = PDict tg l /\ Forall (dvalid VK VV) l
   | DIOr _ => r = self_marker /\ Forall (dvalid VK VV) s'
   | _ => True
   end.
